@@ -834,8 +834,14 @@ analyze_function(CallGraphNode cg_node,
       CRAB_VERBOSE_IF(1, get_msg_stream()
                              << "++ Fixpoint reached for recursive function "
                              << cfg.get_func_decl().get_func_name() << "!\n";);
-      // Don't check invariants with the last iteration
-      return nullptr;
+      if (iteration > 0) {
+        // Don't check invariants with the last iteration: the results
+        // of the previous iteration are the ones recorded.
+        return nullptr;
+      }
+      // The very first iteration is already a fixpoint (e.g., the
+      // function does not return for this entry): there is no
+      // previous iteration, so its results must be recorded below.
     } else {
       CRAB_VERBOSE_IF(1, get_msg_stream()
                              << "++ Widening " << iteration
